@@ -20,6 +20,18 @@ steps (`;`-separated, `-` none):  <name>=<value> | <name>=cur (assign the CURREN
     !<name>=<value> (the LIBRARY assigns: Device.en_channels_update / div_channels_update, or ch_enable/ch_divider +
     channels_write on the connected handler) | @copy | @deepcopy | @pickle | @pickle2 | @replace (go on with the copy)
 
+Device-level lines (ALL the records reachable from one `Device`, Lean driver `rec devseq …`, model `DevRecords.lean`):
+
+    rec devseq <chmax>,<flags>,<rxpadding> <chanspec>/<chanspec>/… <steps>        (`-`: no channels / no steps)
+
+<chanspec> = <chan>,<_type>,<vdim>,<name>,<en>,<div>,<mlen>: Device(chmax, flags, rxpadding, [DeviceChannel(*chanspec), …]).
+steps: c<i>:<name>=<value> (dev.channel_get(i).data.<name> = value; i may be out of range) | d:<name>=<value> (dev.data.<name> = value) |
+    E:<v>,<v>,… (dev.en_channels_update([...]), any length, `E:-` the empty list) | D:<v>,… (dev.div_channels_update([...])); value `cur` as above.
+output: per step `ok|err:<exc>[<channels_en>|<channels_div>]`, then ` E:<channels_en> D:<channels_div> dev:<dump> ch:<dump>/<dump>…`.
+The oracle (`_judge_dev`) keeps its own account: every item of every record other than en / div stays the very object construction put
+there, en / div of channel j are the object last assigned by a step that had to go through (an application's en / div assignment to an
+existing channel, a library update with a vector of the device's length), every other step must raise and change nothing.
+
 The oracle judges the raw observations (exception, `__dict__` items by identity) of its own run of the real code; it
 knows nothing of the model: a step assigning en / div of a channel record must not raise, must store the very object
 given and change nothing else; every other assignment must raise TypeError and leave every item of `__dict__` the
@@ -414,6 +426,106 @@ def dump(items):
     return ",".join(f"{ntok(k)}={tok(v)}" for k, v in items)
 
 
+# ---------------------------------------------------------------------------------------------------------------
+# device-level lines: all the records of ONE Device (`rec devseq`)
+# ---------------------------------------------------------------------------------------------------------------
+
+def _vec(read):
+    """read a channels_en / channels_div vector: (list | None, exception | None)"""
+    try:
+        return list(read()), None
+    except Exception as e:  # noqa: BLE001
+        return None, e
+
+
+def execute_dev(line):
+    """-> (device ctor values, [channel ctor values], construction exception | None, observations).
+    An observation is (step token | None, what, exception | None, [items of dev.data.__dict__, items of channel 0's record, …],
+    (channels_en, exc), (channels_div, exc)) with what = ("chan", i, name, value) | ("dev", name, value) | ("E" | "D", values);
+    observations[0] is the device as constructed."""
+    t = line.split(" ")
+    assert t[0] == "rec" and t[1] == "devseq", line
+    dv = [val(x) for x in t[2].split(",")]
+    cvs = [] if t[3] == "-" else [[val(x) for x in c.split(",")] for c in t[3].split("/")]
+    steps = [] if t[4] == "-" else t[4].split(";")
+    dev = _dev()
+    obs = []
+    try:
+        d = dev.Device(dv[0], dv[1], dv[2], [dev.DeviceChannel(*cv) for cv in cvs])
+    except Exception as e:  # noqa: BLE001
+        return dv, cvs, e, obs
+    recs = [d.data] + [d.channel_get(j).data for j in range(len(cvs))]     # the records an application is handed
+
+    def look(st, what, exc):
+        obs.append((st, what, exc, [list(r.__dict__.items()) for r in recs], _vec(lambda: d.channels_en), _vec(lambda: d.channels_div)))
+
+    look(None, None, None)
+    for st in steps:
+        tgt, arg = st.split(":")
+        exc = None
+        if tgt in ("E", "D"):
+            vs = [] if arg == "-" else [val(x) for x in arg.split(",")]
+            what = (tgt, vs)
+            try:
+                (d.en_channels_update if tgt == "E" else d.div_channels_update)(vs)
+            except Exception as e:  # noqa: BLE001
+                exc = e
+        else:
+            nm, vt = arg.split("=")
+            nm = nval(nm)
+            i = None if tgt == "d" else int(tgt[1:])
+            if vt == "cur":
+                ch = None if i is None else d.channel_get(i)
+                v = getattr(d.data, nm, None) if i is None else (None if ch is None else getattr(ch.data, nm, None))
+            else:
+                v = val(vt)
+            what = ("dev", nm, v) if i is None else ("chan", i, nm, v)
+            try:
+                if i is None:
+                    setattr(d.data, nm, v)
+                else:
+                    setattr(d.channel_get(i).data, nm, v)
+            except Exception as e:  # noqa: BLE001
+                exc = e
+        look(st, what, exc)
+    return dv, cvs, None, obs
+
+
+def vec_tok(vx):
+    vs, exc = vx
+    if exc is not None:
+        return "!" + exc_name(exc)
+    return ",".join(tok(v) for v in vs) or "-"
+
+
+def impl_dev(line):
+    dv, cvs, cexc, obs = execute_dev(line)
+    if cexc is not None:
+        return f"err-init {exc_name(cexc)}"
+    outs = [("ok" if exc is None else f"err:{exc_name(exc)}") + f"[{vec_tok(en)}|{vec_tok(div)}]" for st, what, exc, recs, en, div in obs[1:]]
+    st, what, exc, recs, en, div = obs[-1]
+    return (f"ok {';'.join(outs) or '-'} E:{vec_tok(en)} D:{vec_tok(div)} dev:{dump(recs[0])} "
+            f"ch:{'/'.join(dump(r) for r in recs[1:]) or '-'}")
+
+
+def pyrepro_dev(line, upto=None):
+    t = line.split(" ")
+    cvs = [] if t[3] == "-" else [", ".join(pyval(x) for x in c.split(",")) for c in t[3].split("/")]
+    out = [f"dev = Device({', '.join(pyval(x) for x in t[2].split(','))}, [{', '.join(f'DeviceChannel({a})' for a in cvs)}])"]
+    for st in ([] if t[4] == "-" else t[4].split(";"))[:upto]:
+        tgt, arg = st.split(":")
+        if tgt in ("E", "D"):
+            vs = [] if arg == "-" else [pyval(x) for x in arg.split(",")]
+            out.append(f"dev.{'en' if tgt == 'E' else 'div'}_channels_update([{', '.join(vs)}])")
+            continue
+        nm, vt = arg.split("=")
+        nm = nval(nm)
+        rec = "dev.data" if tgt == "d" else f"dev.channel_get({tgt[1:]}).data"
+        v = f"getattr({rec}, {nm!r}, None)" if vt == "cur" else pyval(vt)
+        out.append(f"{rec}.{nm} = {v}" if nm.isidentifier() else f"setattr({rec}, {nm!r}, {v})")
+    return out
+
+
 ROUTE_TEXT = {"direct": "built directly", "devchan": "DeviceChannel(...).data", "device": "handed out by a Device",
               "decoded": "decoded by Parser.frame_chinfo_decode", "session": "handed out by a connected NxscopeHandler"}
 
@@ -428,7 +540,10 @@ class C19(Prop):
             "current value, with None, with an equal-but-not-identical value, per type byte; histories: random "
             "assignment sequences (library en/div updates, copies, attempts to clear the marker) on records built "
             "directly, through DeviceChannel/Device, decoded from a chinfo frame, copied/pickled, or handed out by a "
-            "connected NxscopeHandler; constructor arguments varied over the same value domain; "
+            "connected NxscopeHandler; constructor arguments varied over the same value domain; devseq: ALL the records of "
+            "one Device (0..4 channels, type bytes across the range) under histories of application assignments to any "
+            "channel record (also out of range) / the device record and library en/div updates with vectors of the right "
+            "and of wrong lengths, channels_en / channels_div read back after every step; "
             "distinct = distinct (line, output); non-trivial = all")
 
     # ---- generation -------------------------------------------------------------------------------------------
@@ -601,6 +716,111 @@ class C19(Prop):
             else:
                 st = self.history(rng, kind, "session", rng.randrange(2, 6))
             yield self.line(kind, "session", cv, st), f"session-{kind}"
+        # 7 all the records of one Device: application assignments to any of them and the library's en / div updates
+        yield from self.dev_cases(rng, thorough)
+
+    # ---- device-level lines (`rec devseq`) ---------------------------------------------------------------------
+    CHAN_IDS = ["i0", "i1", "i2", "i5", "i7", "i63", "i255", "i-1", "i256", "i18446744073709551616", "N", sval("a"), sval("é")]
+    # `len(channels) == chmax` holds for these as well (the record keeps the object given)
+    CHMAX_EQ = {0: ["F", "o0.1", "o0.6"], 1: ["T", "o1.0", "o1.22", "o1.18"], 2: ["o1.29"], 3: ["o1.3"], 4: []}
+
+    def dev_ctor(self, rng, n, tys=None, wild=True):
+        """-> (device ctor tokens, [channel ctor tokens]) of a device with n channels (distinct hashable ids, str names, bool en)"""
+        P = self.pool()
+        chmax = rng.choice(self.CHMAX_EQ[n]) if self.CHMAX_EQ.get(n) and rng.random() < 0.15 else f"i{n}"
+        fl = rng.choice([0, 1, 2, 3, 3, 255, 7, 128, 4, 2 ** 64 + 3, rng.randrange(256), rng.randrange(1 << 20)])
+        dv = [chmax, f"i{fl}", rng.choice(P) if wild else rng.choice(["i0", "i4", "i1"])]
+        ids = rng.sample(self.CHAN_IDS, n) if wild else [f"i{j}" for j in range(n)]
+        cvs = []
+        for j in range(n):
+            ty = rng.randrange(256) if tys is None else tys[j]
+            pick = (lambda: rng.choice(P)) if wild and rng.random() < 0.5 else (lambda: rng.choice(self.INTS[:9]))
+            cvs.append([ids[j], f"i{ty}", pick(), rng.choice(self.STRS), rng.choice("TF"), pick(), pick()])
+        return dv, cvs
+
+    def dev_line(self, dv, cvs, steps):
+        return f"rec devseq {','.join(dv)} {'/'.join(','.join(c) for c in cvs) or '-'} {';'.join(steps) or '-'}"
+
+    def dev_vec(self, rng, fld, m):
+        P = self.pool()
+        if rng.random() < 0.7:
+            vs = [rng.choice("TF") if fld == "E" else f"i{rng.choice([0, 1, 2, 7, 255, 256, rng.randrange(256)])}" for _ in range(m)]
+        else:
+            vs = [rng.choice(P) for _ in range(m)]
+        return f"{fld}:{','.join(vs) or '-'}"
+
+    def dev_step(self, rng, n, kind=None):
+        """one step token of the given kind (None: drawn) for a device with n channels"""
+        P = self.pool()
+        cfields, codd = self.names("chan")
+        dfields, dodd = self.names("dev")
+        kind = kind or rng.choice(["chan-endiv", "chan-endiv", "chan-ident", "chan-ident", "chan-marker", "chan-odd", "chan-range", "dev-field",
+                                   "dev-odd", "lib-en", "lib-div", "lib-en", "lib-div", "lib-wrong", "cur"])
+        if n == 0 and kind in ("chan-endiv", "chan-ident", "chan-marker", "chan-odd"):
+            kind = "chan-range"
+        i = rng.randrange(n) if n else 0
+        if kind == "chan-endiv":
+            return f"c{i}:{rng.choice(['en', 'div'])}={rng.choice(P)}"
+        if kind == "chan-ident":
+            return f"c{i}:{rng.choice([f for f in cfields if f not in ('en', 'div', '_initdone')])}={rng.choice(P + ['cur', 'N'])}"
+        if kind == "chan-marker":
+            return f"c{i}:_initdone={rng.choice(['F', 'i0', 'N', 's-', 'o0.1', 'o0.24', 'T', 'cur', 'o0.12'])}"
+        if kind == "chan-odd":
+            return f"c{i}:{rng.choice(codd)}={rng.choice(P)}"
+        if kind == "chan-range":
+            return f"c{rng.choice([n, n, n + 1, n + 5, 255, 2 ** 64])}:{rng.choice(['en', 'div', 'chan', 'en', '_initdone', 'bogus'])}={rng.choice(P + ['cur'])}"
+        if kind == "dev-field":
+            return f"d:{rng.choice(dfields)}={rng.choice(P + ['cur', 'N', 'F'])}"
+        if kind == "dev-odd":
+            return f"d:{rng.choice(dodd)}={rng.choice(P)}"
+        if kind in ("lib-en", "lib-div"):
+            return self.dev_vec(rng, "E" if kind == "lib-en" else "D", n)
+        if kind == "lib-wrong":
+            return self.dev_vec(rng, rng.choice("ED"), rng.choice([m for m in (0, n - 1, n + 1, n + 1, n + 3, 2 * n) if 0 <= m != n]))
+        return rng.choice([f"c{i}:en=cur", f"c{i}:div=cur", f"c{i}:chan=cur", "d:chmax=cur", f"c{i}:div=cur"])
+
+    DEV_KINDS = ["chan-endiv", "chan-ident", "chan-marker", "chan-odd", "chan-range", "dev-field", "dev-odd", "lib-en", "lib-div", "lib-wrong", "cur"]
+
+    def dev_cases(self, rng, thorough):
+        P = self.pool()
+        # a type bytes across the range, 0..4 channels, no history / one step of every kind
+        tys = list(range(256)) if thorough else sorted(set(list(range(0, 34, 3)) + [18, 19, 31, 32, 64, 96, 127, 128, 138, 146, 147, 160, 224, 255]
+                                                           + [rng.randrange(256) for _ in range(6)]))
+        k = 0
+        while k < len(tys):
+            n = [4, 3, 2, 1, 4][(k // 4) % 5]
+            chunk = tys[k:k + n]
+            k += n
+            dv, cvs = self.dev_ctor(rng, len(chunk), chunk, wild=False)
+            yield self.dev_line(dv, cvs, []), "devseq-dump"
+            yield self.dev_line(dv, cvs, [self.dev_step(rng, len(chunk))]), "devseq-single"
+        for n in range(5):
+            for kind in self.DEV_KINDS:
+                for _ in range(3 if thorough else 1):
+                    dv, cvs = self.dev_ctor(rng, n)
+                    yield self.dev_line(dv, cvs, [self.dev_step(rng, n, kind)]), "devseq-single"
+        # b assignments to two channels, in both orders (then everything is read back; a library update in between for half of them)
+        for r in range(60 if thorough else 16):
+            n = rng.randrange(2, 5)
+            dv, cvs = self.dev_ctor(rng, n, wild=r % 2 == 0)
+            i, j = rng.sample(range(n), 2)
+            a = f"c{i}:{rng.choice(['en', 'div', 'en', 'chan', '_initdone'])}={rng.choice(P)}"
+            b = f"c{j}:{rng.choice(['en', 'div', 'div', 'name', 'dtype'])}={rng.choice(P)}"
+            tail = [self.dev_step(rng, n, rng.choice(["lib-en", "lib-div", "cur", "lib-wrong"]))] if r % 2 else []
+            yield self.dev_line(dv, cvs, [a, b] + tail), "devseq-two-channels"
+            yield self.dev_line(dv, cvs, [b, a] + tail), "devseq-two-channels"
+        # c vectors of the wrong length after the application / the library assigned: nothing may be applied, not even a prefix
+        for r in range(80 if thorough else 20):
+            n = r % 5
+            dv, cvs = self.dev_ctor(rng, n, wild=False)
+            pre = [self.dev_step(rng, n, rng.choice(["lib-en", "lib-div", "chan-endiv"])) for _ in range(rng.randrange(3))]
+            yield self.dev_line(dv, cvs, pre + [self.dev_step(rng, n, "lib-wrong"), self.dev_step(rng, n, "lib-wrong"),
+                                                self.dev_step(rng, n, rng.choice(["lib-en", "lib-div", "chan-ident"]))]), "devseq-wrong-length"
+        # d random histories
+        for r in range(1200 if thorough else 200):
+            n = rng.choice([0, 1, 1, 2, 2, 3, 3, 4, 4])
+            dv, cvs = self.dev_ctor(rng, n, wild=rng.random() < 0.6)
+            yield self.dev_line(dv, cvs, [self.dev_step(rng, n) for _ in range(rng.randrange(1, 11))]), "devseq-history"
 
     def search_cases(self, rng):
         out = []
@@ -609,10 +829,16 @@ class C19(Prop):
             route = rng.choice(["direct", "devchan", "device", "decoded", "device.0", "device.2", "device.1"] if kind == "chan" else ["direct", "device"])
             cv = self.ctor(rng, kind, route, wild=rng.random() < 0.5)
             out.append((self.line(kind, route, cv, self.history(rng, kind, route, rng.randrange(1, 8))), "search"))
+        for i in range(200):
+            n = rng.randrange(5)
+            dv, cvs = self.dev_ctor(rng, n, wild=rng.random() < 0.5)
+            out.append((self.dev_line(dv, cvs, [self.dev_step(rng, n) for _ in range(rng.randrange(1, 9))]), "search"))
         return out
 
     # ---- the real code ---------------------------------------------------------------------------------------
     def impl(self, line):
+        if line.split(" ")[1] == "devseq":
+            return impl_dev(line)
         kind, route, cv, cexc, obs = execute(line)
         if cexc is not None and not obs:
             return f"err-init {exc_name(cexc)}"
@@ -625,6 +851,13 @@ class C19(Prop):
 
     # ---- the property ----------------------------------------------------------------------------------------
     def oracle(self, line, impl_out=None):
+        if line.split(" ")[1] == "devseq":
+            v = self._judge_dev(line)
+            if v:
+                m = re.search(r"step (\d+) of history", v.get("what", ""))
+                v["python"] = pyrepro_dev(line, int(m.group(1)) if m else None)
+                v["values"] = "N None, T/F bool, i<n> int, s<hex> str (UTF-8), o<truthy>.<k> = k-th entry of OTHERS in harness/props/C19.py"
+            return v
         v = self._judge(line)
         if v:
             m = re.search(r"step (\d+) of history", v.get("what", ""))
@@ -699,6 +932,85 @@ class C19(Prop):
                             f"{changed or [k for (k, a), (_, b) in zip(items, prev) if a is not b]}",
                             "expected": dump(prev), "observed": dump(items)}
             prev = items
+        return None
+
+    def _judge_dev(self, line):
+        """the property over ALL the records of one Device and a history of application assignments and library updates"""
+        dv, cvs, cexc, obs = execute_dev(line)
+        t = line.split(" ")
+        where = f"Device({t[2]}, [{t[3]}])"
+        if cexc is not None:
+            return {"key": "construct", "what": f"{where}: construction raised {type(cexc).__name__}: {cexc}", "expected": "a device",
+                    "observed": type(cexc).__name__}
+        n = len(cvs)
+        base = obs[0][3]
+        # as constructed: the fields are the constructor arguments, the derived attributes follow flags / type byte
+        bd = dict(base[0])
+        wantd = {"chmax": dv[0], "flags": dv[1], "rxpadding": dv[2], "div_supported": bool(dv[1] & 1), "ack_supported": bool(dv[1] & 2)}
+        if any(tok(bd.get(k, "absent")) != tok(w) for k, w in wantd.items()):
+            return {"key": "fields", "what": f"{where}: the device description as constructed", "expected": dump(wantd.items()), "observed": dump(base[0])}
+        for j, cv in enumerate(cvs):
+            ty = cv[1]
+            wantc = {"chan": cv[0], "_type": ty, "vdim": cv[2], "name": cv[3], "en": cv[4], "div": cv[5], "mlen": cv[6],
+                     "dtype": ty & 0x1F, "critical": bool(ty & 0x80), "type_res": ty & 0x60, "is_valid": (ty & 0x1F) != 0,
+                     "is_numerical": (ty & 0x1F) not in (0, 1, 18, 19)}
+            bc = dict(base[1 + j])
+            if any(tok(bc.get(k, "absent")) != tok(w) for k, w in wantc.items()):
+                return {"key": "fields" if any(tok(bc.get(k, "absent")) != tok(wantc[k]) for k in list(wantc)[:7]) else "derived",
+                        "what": f"{where}: the description of channel {j} as constructed", "expected": dump(wantc.items()), "observed": dump(base[1 + j])}
+        exp = {"en": [dict(r).get("en", "absent") for r in base[1:]], "div": [dict(r).get("div", "absent") for r in base[1:]]}
+        hist = []
+
+        def account(at):
+            """every record against the oracle's own account; -> violation | None"""
+            st, what, exc, recs, en, div = obs[at]
+            for j, (items, b) in enumerate(zip(recs, base)):
+                rname = "the device description" if j == 0 else f"the description of channel {j - 1}"
+                if [k for k, _ in items] != [k for k, _ in b]:
+                    return rname, "its attribute set changed", dump(b), dump(items)
+                for (k, a), (_, c) in zip(items, b):
+                    w = exp[k][j - 1] if j > 0 and k in ("en", "div") else c
+                    if a is not w:
+                        return rname, f"{k} is not " + ("the value last assigned" if w is not c else "the constructed value"), tok(w), tok(a)
+            for nm, (vs, vexc) in (("en", en), ("div", div)):
+                if vexc is not None or len(vs) != n or any(a is not b for a, b in zip(vs, exp[nm])):
+                    return f"Device.channels_{nm}", "is not the per-channel values last assigned", ",".join(tok(x) for x in exp[nm]) or "-", vec_tok((vs, vexc))
+            return None
+
+        bad = account(0)
+        if bad:
+            return {"key": "fields", "what": f"{where} as constructed: {bad[0]}: {bad[1]}", "expected": bad[2], "observed": bad[3]}
+        for idx in range(1, len(obs)):
+            st, what, exc, recs, en, div = obs[idx]
+            hist.append(st)
+            at = f"{where}, step {idx} of history [{';'.join(hist)}]: "
+            if what[0] == "chan":
+                _, i, nm, v = what
+                at += f"dev.channel_get({i}).data.{nm} = {tok(v)}"
+                must_pass = 0 <= i < n and type(nm) is str and nm in ("en", "div")
+                if must_pass:
+                    exp[nm][i] = v
+                key = "en-div-assignable" if must_pass else "readonly"
+            elif what[0] == "dev":
+                _, nm, v = what
+                at += f"dev.data.{nm} = {tok(v)}"
+                must_pass, key = False, "readonly"
+            else:
+                fld = "en" if what[0] == "E" else "div"
+                vs = what[1]
+                at += f"dev.{fld}_channels_update([{', '.join(tok(x) for x in vs)}]) on a device with {n} channels"
+                must_pass, key = len(vs) == n, "library-update"
+                if must_pass:
+                    exp[fld] = list(vs)
+            if must_pass and exc is not None:
+                return {"key": key, "what": f"{at} raised {type(exc).__name__}", "expected": "goes through", "observed": f"{type(exc).__name__}: {exc}"}
+            if not must_pass and exc is None:
+                return {"key": key, "what": f"{at} did not raise", "expected": "an exception, every record unchanged",
+                        "observed": "no exception; " + impl_dev(line).split(" ")[1].split(";")[idx - 1]}
+            bad = account(idx)
+            if bad:
+                return {"key": key, "what": f"{at} {'went through' if exc is None else 'raised ' + type(exc).__name__} but afterwards {bad[0]}: {bad[1]}",
+                        "expected": bad[2], "observed": bad[3]}
         return None
 
     OPT_SCRIPT = r"""
